@@ -189,7 +189,10 @@ def order_lists(N, L=None):
     single = st.one_of(st.sampled_from([0, 1, 2, 3]), st.integers(0, N)).map(lambda n: [n])
     long_ = st.integers(max(2, L - 12), L).map(lambda n: list(range(0, n + 1)))
     high = st.sets(st.integers(max(0, N - 30), N), min_size=1, max_size=5).map(sorted)     # the far end of the range
-    return st.one_of(contiguous, gapped, low_gapped, single, long_, high)
+    # arithmetic progressions (every other / every third order, from 0 or not): what range(start, stop, step) spells
+    stepped = st.tuples(st.sampled_from([0, 0, 0, 1, 2]), st.sampled_from([2, 2, 3, 4]), st.integers(2, 9)).map(
+        lambda t: [n for n in range(t[0], t[0] + t[1] * t[2], t[1]) if n <= N] or [0])
+    return st.one_of(contiguous, gapped, low_gapped, single, long_, high, stepped)
 
 
 def shape_spec(D):
@@ -378,8 +381,10 @@ def _as_orders(ns, how):
     """the order list in the container the case asks for (list | tuple | range | ndarray | ndarray-int32)"""
     if how == 'tuple':
         return tuple(ns)
-    if how == 'range' and ns == list(range(ns[0], ns[0] + len(ns))):
-        return range(ns[0], ns[0] + len(ns))
+    if how == 'range' and len(ns) >= 2 and ns == list(range(ns[0], ns[-1] + 1, ns[1] - ns[0])):
+        return range(ns[0], ns[-1] + 1, ns[1] - ns[0])       # any arithmetic progression, also with a step > 1
+    if how == 'range' and len(ns) == 1:
+        return range(ns[0], ns[0] + 1)
     if how == 'ndarray':
         return np.asarray(ns, dtype=np.int64)
     if how == 'ndarray-int32':
@@ -412,7 +417,7 @@ def _unchanged(ctx, now, before, bucket, what):
 # x.shape / x.dtype and raise AttributeError for a Python float, which the single-order functions accept; the repair is
 # fixes/C08/04-hermite-seq-python-scalar.patch.  Put the four Hermite families here once it is in the repository.
 PYFLOAT_FAMILIES = ('hermite_He', 'hermite_H', 'hermite_He_der', 'hermite_H_der')
-HISTORY = ['none', 'none', 'none', 'single-first', 'other-ns', 'other-x', 'other-params']
+HISTORY = ['none', 'none', 'none', 'single-first', 'other-ns', 'other-x', 'other-params', 'shorter-first', 'shorter-first']
 ORDERS_AS = ['list', 'list', 'list', 'tuple', 'range', 'ndarray', 'ndarray-int32']
 # 'ns : iterable of int': one-shot iterables (a generator expression, iter(list), the keys view of a dict) are walked exactly once by the
 # unchanged one-index routines.  Not given to the Chebyshev 2nd / 4th kind sequences, whose unchanged code does arithmetic on ns itself
@@ -484,6 +489,12 @@ def check_one_index(case, ctx):
         run(_as_orders(ns, ns_as), params, present(coords(case['seed'], shape, lo, hi, dtype, salt=5, pat=pat), layout, x0d))
     elif history == 'other-params' and params:
         run(_as_orders(ns, ns_as), [p + 1 for p in params], x)
+    elif history == 'shorter-first':
+        # the everyday request first (the first few orders of the same family and parameters), then - twice - growing ones: tables that are
+        # built for the first request and extended for the later ones
+        for top in (5, 9, min(17, max(ns))):
+            if top < max(ns):
+                run(list(range(0, top + 1)), params, x)
 
     x_before = np.array(x, copy=True)
     ns_arg = _as_orders(ns, ns_as)
@@ -527,6 +538,20 @@ def check_one_index(case, ctx):
             _cmp(out2[i], np.asarray(_guard(ctx, scls, scalar, n, *params, x2)), ref, dtype, '%s_seq:second-call:%s%s' % (fam, ncls, bsuf),
                  '%s_seq(%r, %r)[%d] vs %s(%d) on the second coordinate set' % (fam, ns, params, i, fam, n))
     _unchanged(ctx, x, x_before, '%s:argument-modified:x' % fam, 'the coordinate array (scalar-order function)')
+    # the caller rescales / shifts its coordinate array in place and asks again with the same objects: the answer follows the values
+    if isinstance(x, np.ndarray) and x.ndim >= 1 and x.flags.writeable and x.dtype.kind in 'fc':
+        mid = 0.5 * (lo + hi)
+        x -= mid
+        x *= 0.5
+        x += mid        # still inside [lo, hi]
+        out4 = np.asarray(run(again(), params, x))
+        U.check_shape(out4, (k,) + shape, '%s_seq:coordinates-edited-in-place:%s' % (fam, scls), 'same coordinate object, new values')
+        for i in sorted({0, spot, k - 1}):
+            want = np.asarray(_guard(ctx, scls, scalar, ns[i], *params, x))
+            ref = _guard(ctx, 'ref', scalar, ns[i], *params, xref) if want.size < 8 else want
+            _cmp(out4[i], want, ref, dtype, '%s_seq:coordinates-edited-in-place%s' % (fam, bsuf),
+                 '%s_seq(%r, %r)[%d] vs %s(%d) after the caller changed the same coordinate array in place' % (fam, ns, params, i, fam, ns[i]))
+        ctx.label('coordinates-edited-in-place')
 
 
 # ---- two-index families --------------------------------------------------------------------------------
@@ -713,6 +738,21 @@ def check_zernike(case, ctx):
             if i == spot:
                 _cmp(out2[i], np.asarray(_guard(ctx, scls, P.zernike_nm, n, m, r2, t2, **kw)), ref, dtype, 'zernike_nm_seq:second-call',
                      'zernike_nm_seq(%r)[%d] vs zernike_nm(%d,%d) on the second coordinate set' % (nms, i, n, m))
+        if all(isinstance(c, np.ndarray) and c.ndim >= 1 and c.flags.writeable for c in (r, t)):
+            # the caller normalises its radius and clocks its azimuth in place, then asks again with the same two objects
+            r *= 0.75
+            t += 0.37
+            out4 = np.asarray(_guard(ctx, scls, P.zernike_nm_seq, _as_pairs(nms, pairs_as), r, t, **kw))
+            U.check_shape(out4, (k,) + shape, 'zernike_nm_seq:coordinates-edited-in-place:' + scls, 'same coordinate objects, new values')
+            for i in sorted({0, spot, k - 1}):
+                n, m = nms[i]
+                want = np.asarray(_guard(ctx, scls, P.zernike_nm, n, m, r, t, **kw))
+                ref = _guard(ctx, 'ref', P.zernike_nm, n, m, rref, tref, **kw)
+                if m != 0 and dtype in SINGLE:
+                    ref = _with_radial_amplitude(ref, dtype, _guard(ctx, 'ref', P.zernike_nm, n, abs(m), r, 0 * t, **kw))
+                _cmp(out4[i], want, ref, dtype, 'zernike_nm_seq:coordinates-edited-in-place',
+                     'zernike_nm_seq(%r)[%d] vs zernike_nm(%d,%d) after the caller changed r and t in place' % (nms, i, n, m))
+            ctx.label('coordinates-edited-in-place')
     else:
         kept, (r, t), out3, (r2, t2), out2 = _two_index_protocol(
             ctx, 'zernike_nm_der_seq', scls, lambda pairs, c: _guard(ctx, scls, P.zernike_nm_der_seq, pairs, c[0], c[1], **kw),
